@@ -5,6 +5,7 @@ import warnings
 
 warnings.simplefilter('ignore', FutureWarning)
 
+from ..common import safe_repr
 from .. import encode, gen_regex, model, runner, scripted_random as SR, sexp
 from ..common import d42  # noqa: F401
 from d42 import validate
@@ -149,7 +150,7 @@ def run(ctx):
                 if unsup is None and not isinstance(v, IndexError):
                     # supported grammar must generate (IndexError = negated class that excludes the whole alphabet: loud)
                     ctx.violation("generator raised %s on a pattern from the supported grammar" % type(v).__name__,
-                                  pattern=p, policy=pol, exception=repr(v))
+                                  pattern=p, policy=pol, exception=safe_repr(v))
             I = encode.Interner()
             try:
                 import sys
@@ -204,7 +205,7 @@ def cap_family(ctx):
                             out = g.generate(pat)
                         except Exception as e:  # noqa: BLE001
                             ctx.violation("generator raised %s on a pattern from the supported grammar" % type(e).__name__,
-                                          pattern=pat, max_repeat=cap, exception=repr(e))
+                                          pattern=pat, max_repeat=cap, exception=safe_repr(e))
                             break
                         try:
                             ok = len(out) > 5000 or fullmatch(pat, out)
@@ -252,7 +253,7 @@ def reuse_family(ctx, patterns):
                     except Exception as e:  # noqa: BLE001
                         if p in good[:8]:
                             ctx.violation("generator raised %s on a supported pattern after other patterns were processed"
-                                          % type(e).__name__, pattern=p, previous=prev, via=label, exception=repr(e))
+                                          % type(e).__name__, pattern=p, previous=prev, via=label, exception=safe_repr(e))
                         prev = p
                         continue
                     try:
@@ -289,7 +290,7 @@ def schema_path(ctx, patterns):
             except _Timeout:
                 continue
             except Exception as e:  # noqa: BLE001
-                ctx.violation("validate raised on a generated string", pattern=p, generated=v, exception=repr(e))
+                ctx.violation("validate raised on a generated string", pattern=p, generated=v, exception=safe_repr(e))
                 continue
             if bad or not full:
                 ctx.violation("schema.str.regex(p) generated a string its own validation rejects" if bad else
